@@ -167,6 +167,42 @@ def alias_rules(F, R, d):
                     n += 1
                     for c in [l for l in og if l[0] == 'const']:
                         lits[c[1]].append(cb.loc(cbi))
+        # a non-literal limit must be the one the client itself advertised (CONNECT.topic_alias_max); the CONNACK carries the
+        # limit for the other direction (aliases the client may send)
+        wrong_dir = []
+        for caller, cbi in F.callers.get(cd.path, []):
+            cb = F.bodies[caller]
+            t = cb.blocks[cbi]['term']
+            for a in t['args']:
+                pl0 = op_place(a)
+                if pl0 is None or cb.local_ty(pl0['l']) != 'u16':
+                    continue
+                work_, seen_ = [pl0], set()
+                while work_ and len(seen_) < 30:
+                    q = work_.pop()
+                    for e in place_proj(q):
+                        if isinstance(e, dict) and e.get('f') in ('topic_alias_max', 'max_topic_alias') and e.get('adt'):
+                            if 'connack::ConnectAck' in e['adt']:
+                                wrong_dir.append((cb.loc(cbi), e['adt']))
+                            elif 'ClientRouter' in e['adt'] or e['adt'].endswith('::Client'):
+                                # stored in the client object: look at where that field is filled
+                                for ob in F.find(r'^v5::client::'):
+                                    for xb, xj, st_ in ob.assigns():
+                                        if st_['rv']['k'] == 'agg' and st_['rv'].get('adt') == e['adt'] and e['f'] in (st_['rv'].get('names') or []):
+                                            fo_ = op_place(st_['rv']['fields'][st_['rv']['names'].index(e['f'])])
+                                            for dd_ in (ob.whole_defs(fo_['l']) if fo_ else []):
+                                                if dd_[2] == 'assign' and dd_[3]['rv']['k'] == 'use' and op_place(dd_[3]['rv']['op']) is not None:
+                                                    for e2 in place_proj(op_place(dd_[3]['rv']['op'])):
+                                                        if isinstance(e2, dict) and e2.get('f') == 'topic_alias_max' and 'connack::ConnectAck' in (e2.get('adt') or ''):
+                                                            wrong_dir.append((ob.loc(xb), e2['adt']))
+                    if q['l'] in seen_:
+                        continue
+                    seen_.add(q['l'])
+                    for dd_ in cb.whole_defs(q['l']):
+                        if dd_[2] == 'assign' and dd_[3]['rv']['k'] in ('use', 'cast') and op_place(dd_[3]['rv']['op']) is not None:
+                            work_.append(op_place(dd_[3]['rv']['op']))
+        R.ob('C17.bind', 'v5-client|max_topic_alias|not-the-CONNACK-value', not wrong_dir,
+             'the limit enforced on aliases the server uses towards this client is taken from CONNACK.topic_alias_max, which limits the other direction: %s' % wrong_dir[:2])
         R.floor('C17.bind', 'client create_dispatcher call sites (u16 limit args)', n, 1)
         R.ob('C17.bind', 'v5-client|max_topic_alias|negotiated-origin', not lits and n > 0, 'all callers pass a value derived from the CONNECT packet')
         for v, locs in sorted(lits.items()):
